@@ -96,7 +96,7 @@ func runC16(cx *Ctx, r *Report) {
 				continue
 			}
 			// value marshalled
-			val := p.Site.Common().Args[1]
+			val := storeArgs(p.Site)[1]
 			marshalled := marshalSource(val)
 			ok, why := cx.validatedAt(p.Site.Block(), marshalled, 0)
 			r.check(ok, "validated-writer", key, pos, why+" in "+shortFn(f), "params key written in "+shortFn(f)+" without a dominating Validate() == nil on the stored value")
@@ -170,6 +170,21 @@ func (cx *Ctx) validatedAt(b *ssa.BasicBlock, v ssa.Value, depth int) (bool, str
 	}
 	par, isPar := stripAddr(v).(*ssa.Parameter)
 	if !isPar {
+		// a parameter spilled to a local because its address is taken (Marshal(&params))
+		if a, ok := stripAddr(v).(*ssa.Alloc); ok && a.Referrers() != nil {
+			n := 0
+			for _, rf := range *a.Referrers() {
+				if st, ok := rf.(*ssa.Store); ok && st.Addr == a {
+					n++
+					par, isPar = st.Val.(*ssa.Parameter)
+				}
+			}
+			if n != 1 {
+				isPar = false
+			}
+		}
+	}
+	if !isPar {
 		return false, ""
 	}
 	fn := par.Parent()
@@ -238,7 +253,7 @@ func (cx *Ctx) paramCoverage(r *Report) {
 				}
 				for _, p := range cx.primsOf(f) {
 					if p.Kind == "store.set" && len(p.Prefix) > 0 && isParamsPrefix(p.Prefix[0]) {
-						if ms := marshalSource(p.Site.Common().Args[1]); ms != nil && namedOf(ms.Type()) == named {
+						if ms := marshalSource(storeArgs(p.Site)[1]); ms != nil && namedOf(ms.Type()) == named {
 							stored = true
 						}
 					}
